@@ -255,7 +255,7 @@ def build_mesh(prog: dict, geo: Geometry):
         mesh.set_default_patch(prog["dflt"][0], prog["dflt"][1])
     for name, kind, settings in prog["mods"]:
         mesh.modify_patch(name, kind, settings)
-    for label, props in prog["geom"]:
+    for label, props in prog.get("geom_calls", prog["geom"]):
         mesh.add_geometry({label: props})
     for key, val in prog["settings"]:
         mesh.settings[key] = val
